@@ -134,6 +134,36 @@ pub fn run(a: &Args) {
             }
         } }
     }
+    // "expressions over these operators obey the same precedence semantics as any other table": constant folding regroups
+    // the literal operands of an operator flagged commutative, which is invisible only if the flagged operator is
+    // associative.  Every flagged operator of the table over all triples of the catalogue: (a o b) o c against a o (b o c),
+    // wherever no intermediate result is an error value (overflow); two float results are not compared (rounding), results of
+    // different kinds or different integers / booleans are failures (defect F11: && and ||)
+    let mut assoc_triples = 0u64;
+    for op in &ops {
+        let name = op.repr();
+        let Ok(b) = op.bin() else { continue };
+        if !b.is_commutative { continue }
+        let f = b.apply;
+        let is_err = |v: &V| matches!(v, Val::Error(_));
+        let close = |x: &V, y: &V| -> bool { match (x, y) {
+            (Val::Int(p), Val::Int(q)) => p == q, (Val::Bool(p), Val::Bool(q)) => p == q, (Val::None, Val::None) => true,
+            // two floats (or two arrays of floats) may differ by rounding, cancellation and underflow: not compared
+            (Val::Float(_), Val::Float(_)) => true, (Val::Array(_), Val::Array(_)) => true,
+            (Val::Error(_), Val::Error(_)) => true, _ => false } };
+        let mut reported = 0;
+        for x in &cat { for y in &cat { for z in &cat {
+            if is_err(x) || is_err(y) || is_err(z) { continue }
+            let r = std::panic::catch_unwind(|| { let xy = f(x.clone(), y.clone()); let yz = f(y.clone(), z.clone()); if matches!(xy, Val::Error(_)) || matches!(yz, Val::Error(_)) { return None }
+                let l = f(xy, z.clone()); let rr = f(x.clone(), yz); Some((l, rr)) });
+            assoc_triples += 1;
+            if let Ok(Some((l, rr))) = r { if is_err(&l) || is_err(&rr) { continue }
+                if !close(&l, &rr) && reported < 8 { reported += 1;
+                    cases.push(C { g: format!("VU {} VNone None", g_str(name)), note: format!("({} {name} {}) {name} {} = {}, but {} {name} ({} {name} {}) = {}", pretty(x), pretty(y), pretty(z), pretty(&l), pretty(x), pretty(y), pretty(z), pretty(&rr)),
+                        family: "flagged-operators-are-associative", ok: Some(false), onote: format!("the operator {name} is flagged commutative (its literal operands are regrouped by constant folding) but is not associative on these operands"), answer: pretty(&l) }); } }
+        } } }
+    }
+    println!("flagged_operator_triples={assoc_triples}");
     // the other instantiations of the value type (the model is Val<i32,f64>): every operator x a boundary catalogue of
     // the instantiation, applied directly and through parse-time folding, must not panic (results are not compared)
     let mut other_apps = 0u64;
@@ -167,6 +197,25 @@ pub fn run(a: &Args) {
             if !op.has_bin() { break } } } }
     }}; }
     inst!(i64, f64, "Val<i64,f64>"); inst!(i32, f32, "Val<i32,f32>"); inst!(i64, f32, "Val<i64,f32>"); inst!(i16, f32, "Val<i16,f32>"); inst!(i128, f64, "Val<i128,f64>");
+    // the documented rules at the boundaries of a WIDER instantiation, Val<i64,f64> (values, not only panics)
+    {
+        use exmex::{parse_val, Express};
+        let spot: Vec<(&str, Option<i64>, bool)> = vec![   // text, expected integer (None with error=true: an error value)
+            ("2.0 ^ 4294967306", None, true), ("2.0 ^ 4294967296", None, true), ("2.0 ^ (0-4294967306)", None, true), ("2 ^ 62", Some(1i64 << 62), false), ("2 ^ 63", None, true), ("2 ^ 64", None, true),
+            ("9223372036854775807 + 1", None, true), ("9223372036854775807 - 1 + 1", Some(i64::MAX), false), ("4611686018427387904 * 2", None, true), ("3037000500 * 3037000500", None, true), ("3037000499 * 3037000499", Some(3037000499i64 * 3037000499), false),
+            ("to_int(9300000000000000000.0)", None, true), ("to_int(0-9300000000000000000.0)", None, true), ("to_int(4611686018427387904.0)", Some(1i64 << 62), false),
+            ("fact(20)", Some(2432902008176640000), false), ("fact(21)", None, true), ("(0-9223372036854775807-1) / (0-1)", None, true), ("(0-9223372036854775807-1) % (0-1)", None, true), ("-(0-9223372036854775807-1)", None, true), ("abs(0-9223372036854775807-1)", None, true),
+            ("1 << 62", Some(1i64 << 62), false), ("1 << 64", None, true), ("1 >> 64", None, true), ("(0-8) >> 1", Some(-4), false), ("4294967296 * 4294967296", None, true), ("2147483648 * 2", Some(4294967296), false), ("2147483647 + 1", Some(2147483648), false) ];
+        for (text, want, err) in spot {
+            let got = std::panic::catch_unwind(|| parse_val::<i64, f64>(text).and_then(|e| e.eval(&[])));
+            let (ok, onote) = match &got { Err(_) => (false, "panicked".to_string()),
+                Ok(Ok(Val::Int(i))) => (want == Some(*i), format!("expected {}", if err { "an error value".to_string() } else { format!("{want:?}") })),
+                Ok(Ok(Val::Error(_))) | Ok(Err(_)) => (err, format!("expected {want:?}")),
+                Ok(Ok(other)) => (false, format!("{other:?}, expected {}", if err { "an error value".to_string() } else { format!("{want:?}") })) };
+            other_apps += 1;
+            if !ok { cases.push(C { g: "VU [] VNone None".to_string(), note: format!("[Val<i64,f64>] {text} = {:?}", got.as_ref().map(|r| r.as_ref().map(|v| format!("{v:?}")).map_err(|e| e.to_string())).unwrap_or(Ok("PANIC".into()))), family: "other-instantiations", ok: Some(false), onote, answer: "wrong".into() }); }
+        }
+    }
     println!("other_instantiations_applications={other_apps}");
     // write shards
     std::fs::create_dir_all(&a.out).unwrap();
@@ -621,6 +670,33 @@ pub fn run_c18v(a: &Args) {
                     let (ok, onote) = match &got { Ok(v) => match num(v) { Some(g) => ((g - want).abs() <= 2e-3 * (1.0 + want.abs()), format!("central differences give {want}")), None => (false, format!("the derivative evaluates to {v:?}, central differences give {want}")) }, Err(er) => (false, format!("the derivative fails to evaluate ({er}), central differences give {want}")) };
                     cases.push(C { note: format!("d/dv{idx} {text} at {:?}{}", &pt[..nv], if ints { " (integers)" } else { "" }), family: "val-derivative", ok, onote: if ok { String::new() } else { onote }, answer: format!("{got:?}") });
                 }
+            }
+        }
+    }
+    // conditions over operators WITHOUT a derivative rule (% >> << on an integer variable n), differentiated by x with
+    // MissingOpMode::PerOperand (the relaxed entry points), flat and deep: the condition must stay what it is
+    {
+        use exmex::MissingOpMode;
+        type DV<'a> = exmex::DeepEx<'a, V, exmex::ValOpsFactory<i32, f64>, exmex::ValMatcher>;
+        let ctexts = ["x*x if n % 2 == 0 else 3*x", "sin(x) if n >> 2 > 0 else x^3", "x^2 if 1 << n > 8 else x/2", "x*3 if n % 3 != 1 else x*x*x", "exp(x) if 7 % n < 3 else x", "x if n - 7 % 2 > 0 else x*x"];
+        for text in ctexts {
+            let Ok(e) = parse_val::<i32, f64>(text) else { cases.push(C { note: text.to_string(), family: "val-derivative-relaxed", ok: false, onote: "the text does not parse".into(), answer: String::new() }); continue };
+            let names: Vec<String> = e.var_names().to_vec(); let (ni, xi) = (names.iter().position(|v| v == "n").unwrap(), names.iter().position(|v| v == "x").unwrap());
+            for route in ["flat", "deep"] {
+                let leaked: &'static str = Box::leak(text.to_string().into_boxed_str());
+                let d: Result<Box<dyn Fn(&[V]) -> exmex::ExResult<V>>, String> = if route == "flat" { e.clone().partial_relaxed(xi, MissingOpMode::PerOperand).map(|d| Box::new(move |v: &[V]| d.eval(v)) as Box<dyn Fn(&[V]) -> exmex::ExResult<V>>).map_err(|er| er.to_string()) }
+                    else { DV::parse(leaked).and_then(|d| d.partial_relaxed(xi, MissingOpMode::PerOperand)).map(|d| Box::new(move |v: &[V]| d.eval(v)) as Box<dyn Fn(&[V]) -> exmex::ExResult<V>>).map_err(|er| er.to_string()) };
+                let d = match d { Ok(d) => d, Err(er) => { cases.push(C { note: format!("[{route}, per operand] d/dx {text}"), family: "val-derivative-relaxed", ok: false, onote: format!("partial_relaxed failed: {er}"), answer: String::new() }); continue } };
+                for n in [1i32, 2, 3, 4, 5, 6, 9, 12] { for x0 in [0.5f64, 1.7, 3.0] {
+                    let mk = |xv: f64| { let mut v = vec![Val::Float(0.0); 2]; v[ni] = Val::Int(n); v[xi] = Val::Float(xv); v };
+                    let h = 1e-6;
+                    let (Ok(lo), Ok(hi)) = (e.eval(&mk(x0 - h)), e.eval(&mk(x0 + h))) else { continue };
+                    let (Some(lo), Some(hi)) = (num(&lo), num(&hi)) else { continue };
+                    let want = (hi - lo) / (2.0 * h);
+                    let got = d(&mk(x0));
+                    let (ok, onote) = match &got { Ok(v) => match num(v) { Some(g) => ((g - want).abs() <= 2e-3 * (1.0 + want.abs()), format!("central differences give {want}")), None => (false, format!("the derivative evaluates to {v:?}, central differences give {want}")) }, Err(er) => (false, format!("evaluation failed: {er}")) };
+                    cases.push(C { note: format!("[{route}, per operand] d/dx {text} at n={n}, x={x0}"), family: "val-derivative-relaxed", ok, onote: if ok { String::new() } else { onote }, answer: format!("{got:?}") });
+                } }
             }
         }
     }
